@@ -34,11 +34,14 @@ def make_problem(nparams, nobj, fail_p, rng, single_unconstrained=False):
             self.costs = [{"name": "f%d" % j, "criteria": crit[j % 3] if not single_unconstrained else "minimize"} for j in range(nobj)]
             self.ok_calls = 0
             self.all_calls = 0
+            self.trail = []          # (design object, call succeeded) in call order
 
         def evaluate(self, ind):
             self.all_calls += 1
             if fail_p and rng.random() < fail_p:
+                self.trail.append((id(ind), False))
                 raise (TimeoutError if rng.random() < 0.5 else RuntimeError)("injected")
+            self.trail.append((id(ind), True))
             self.ok_calls += 1
             x = ind.vector
             s = sum(x)
@@ -71,9 +74,19 @@ def run_algorithm(kind, N, G, nparams, nobj, fail_p, rng, seed):
     a.options["max_population_size"] = N
     a.options["max_population_number"] = G
     a.options["max_processes"] = 1
-    with open(os.devnull, "w") as dn, contextlib.redirect_stdout(dn), contextlib.redirect_stderr(dn):
-        a.run()
+    try:
+        with open(os.devnull, "w") as dn, contextlib.redirect_stdout(dn), contextlib.redirect_stderr(dn):
+            a.run()
+    except RuntimeError as e:
+        e.problem = p
+        raise
     return p
+
+
+def abort_is_legitimate(p):
+    """'To many failures' may end a run only after one design failed five times in a row (C06)."""
+    last = p.trail[-5:]
+    return len(last) == 5 and all(not ok for _, ok in last) and len({k for k, _ in last}) == 1
 
 
 def check_run(ctx, kind, N, G, p, model_answer):
@@ -879,11 +892,23 @@ def run(ctx):
         nparams = rng.randint(1, 4)
         nobj = rng.choice([1, 2, 2, 3])
         fail_p = rng.choice([0, 0, 0.1, 0.3])
+        if k % 5 in (2, 3, 4) and k % 4 == 0:
+            # a long run of a steady-state / swarm algorithm with isolated transient failures: every design has its own five
+            # attempts, whatever happened to its ancestors
+            N, G, fail_p = rng.choice([2, 3]), rng.choice([20, 30]), 0.2
         seed = rng.randrange(10 ** 6)
         try:
             p = run_algorithm(kind, N, G, nparams, nobj, fail_p, rng, seed)
         except RuntimeError as e:
             if fail_p and "failures" in str(e):
+                pp = getattr(e, "problem", None)
+                if pp is not None and not abort_is_legitimate(pp):
+                    cfg = dict(kind=kind, N=N, G=G, nparams=nparams, nobj=nobj, fail_p=fail_p, seed=seed)
+                    ctx.fail("run-aborted", "%s N=%d G=%d: the run was aborted with %r after %d objective calls although no design had failed "
+                             "five times in a row (last calls: %s)" % (kind, N, G, str(e), pp.all_calls,
+                                                                      "".join("o" if ok else "x" for _, ok in pp.trail[-12:])),
+                             {"op": "run", "cfg": cfg, "error": "aborted"})
+                    break
                 ctx.count("run_aborted_by_5_failures")   # allowed by C06: five consecutive failures propagate
                 continue
             raise
@@ -979,7 +1004,13 @@ def replay(ctx, rp):
     rng = random.Random(1)
     if c.get("op") == "run":
         cfg = c["cfg"]
-        p = run_algorithm(cfg["kind"], cfg["N"], cfg["G"], cfg["nparams"], cfg["nobj"], cfg["fail_p"], rng, cfg["seed"])
+        try:
+            p = run_algorithm(cfg["kind"], cfg["N"], cfg["G"], cfg["nparams"], cfg["nobj"], cfg["fail_p"], rng, cfg["seed"])
+        except RuntimeError as e:      # (the fault pattern is drawn from the run's generator: it differs from the recorded run)
+            pp = getattr(e, "problem", None)
+            legit = pp is not None and abort_is_legitimate(pp)
+            print("the run was aborted with %r; one design failed five times in a row: %s" % (str(e), legit))
+            return legit
         ans = ctx.lean([("c09.nsga2 %d|%d" if cfg["kind"] == "nsga2" else "c09.steady %d|%d") % (cfg["N"], cfg["G"])])[0]
         err = check_run(ctx, cfg["kind"], cfg["N"], cfg["G"], p, ans)
         print(err or "run consistent with the model")
